@@ -306,7 +306,82 @@ func c02r4(r *R) {
 		for _, g := range gs {
 			o4.Check(!strings.Contains(g, "isGREASEUint16"), "extension list filtered by %s", g)
 		}
+		extensionErrors(r, ue, eaps[0])
 	}
+}
+
+// extensionErrors: unmarshalExtensions gives up (and the request goes out without a JA4 header) exactly when an
+// extension that is to be listed serialises to nothing, cannot be read (any error but io.EOF), or yields fewer than the
+// two bytes of its id; and the id is appended exactly when none of these holds.
+func extensionErrors(r *R, ue *ssa.Function, app ssa.Instruction) {
+	c := r.C
+	o := r.Ob("C02.R4", "extension-errors:"+funcName(ue)).At(ue.Pos())
+	lenE := "(github.com/refraction-networking/utls.TLSExtension).Len(" + extI + ")"
+	buf := "make([]byte," + lenE + ")"
+	rd := "(github.com/refraction-networking/utls.TLSExtension).Read(" + extI + ", " + buf + ")"
+	dbg := os.Getenv("FPCHECK_DEBUG_C02") != ""
+	has := func(lits []string, l string) bool { return hasGuard(lits, l) }
+	reasons := func(lits []string) []string {
+		var out []string
+		if relHolds(lits, lenE, "==", "0") {
+			out = append(out, "empty")
+		}
+		if relHolds(lits, rd+"#1", "!=", "nil") && has(lits, "-errors.Is("+rd+"#1, io.EOF)") {
+			out = append(out, "read-error")
+		}
+		if relHolds(lits, rd+"#0", "<", "2") {
+			out = append(out, "short")
+		}
+		return out
+	}
+	seen := map[string]bool{}
+	nerr, nok := 0, 0
+	for _, ra := range c.returnAlts(ue, 0) {
+		if dbg {
+			println("C02 ext return:", ra.E, "||", strings.Join(ra.Lits, " ; "))
+		}
+		o.AtI(ra.Ret)
+		rs := reasons(ra.Lits)
+		if ra.E == "nil" {
+			nok++
+			o.Check(len(rs) == 0, "unmarshalExtensions reports success although an extension was %v (conditions %v)", rs, ra.Lits)
+			o.Check(has(ra.Lits, "-("+rngIdx+" < builtin.len(p1.Extensions))"), "unmarshalExtensions returns success before all extensions were examined (conditions %v)", ra.Lits)
+			continue
+		}
+		nerr++
+		if o.Check(len(rs) == 1, "unmarshalExtensions fails (no JA4 header for this client) under conditions %v: want exactly one of `extension serialises to nothing`, `Read failed with an error other than io.EOF`, `fewer than 2 bytes read`", ra.Lits) {
+			seen[rs[0]] = true
+		}
+	}
+	o.Check(nok >= 1, "unmarshalExtensions never reports success")
+	_ = nerr
+	// the id is appended when none of the three holds
+	if app != nil {
+		for _, alt := range c.pathAlts(app.Block()) {
+			if dbg {
+				println("C02 ext append:", strings.Join(alt, " ; "))
+			}
+			o.AtI(app)
+			o.Check(relHolds(alt, lenE, "!=", "0") || relHolds(alt, lenE, ">", "0"), "an extension id is listed without `Len() != 0` having been established (conditions %v)", alt)
+			o.Check(relHolds(alt, rd+"#0", ">=", "2") || relHolds(alt, rd+"#0", ">", "1"), "an extension id is listed without two bytes having been read (conditions %v)", alt)
+			o.Check(relHolds(alt, rd+"#1", "==", "nil") || has(alt, "+errors.Is("+rd+"#1, io.EOF)"), "an extension id is listed although Read failed (conditions %v)", alt)
+		}
+	}
+}
+
+// relHolds: the literal list establishes `a op b`, in any of the spellings a path alternative may carry it
+// (operands either way round, stated positively or as the negation of the complementary test).
+func relHolds(lits []string, a, op, b string) bool {
+	flip := map[string]string{"==": "==", "!=": "!=", "<": ">", ">": "<", "<=": ">=", ">=": "<="}
+	neg := map[string]string{"==": "!=", "!=": "==", "<": ">=", ">": "<=", "<=": ">", ">=": "<"}
+	for _, l := range lits {
+		switch l {
+		case "+(" + a + " " + op + " " + b + ")", "+(" + b + " " + flip[op] + " " + a + ")",
+			"-(" + a + " " + neg[op] + " " + b + ")", "-(" + b + " " + flip[neg[op]] + " " + a + ")":
+			return true
+		}
+	}
+	return false
 }
 
 // checkCounter: field is stored once from a counter that increments by 1 exactly under the given guards.
@@ -675,32 +750,32 @@ func c02r6(r *R) {
 	ig := c.Func("pkg/ja4", "isGREASEUint16")
 	r.need(ig != nil, "isGREASEUint16 not found")
 	o2 := r.Ob("C02.R6", "grease-predicate:"+funcName(ig)).At(ig.Pos())
-	conds := []string{}
-	eachInstr(ig, func(i ssa.Instruction) {
-		if iff, ok := i.(*ssa.If); ok {
-			conds = append(conds, c.Expr(iff.Cond))
-		}
-		if ret, ok := i.(*ssa.Return); ok {
-			if phi, ok := ret.Results[0].(*ssa.Phi); ok {
-				for _, e := range phi.Edges {
-					if _, isC := e.(*ssa.Const); !isC {
-						conds = append(conds, c.Expr(e))
-					}
-				}
-			} else {
-				conds = append(conds, c.Expr(ret.Results[0]))
-			}
-		}
-	})
-	has := func(s string) bool {
-		for _, x := range conds {
-			if x == s {
-				return true
-			}
-		}
-		return false
+	// every way of returning: true only when both tests held, false only when one failed; a test returned as the
+	// value stands for itself (`return a && b`)
+	type rel struct{ a, op, b string }
+	tests := []rel{{"(255 & p0)", "==", "(p0 >> 8)"}, {"(15 & p0)", "==", "10"}}
+	isTest := func(e string, t rel) bool {
+		return e == "("+t.a+" "+t.op+" "+t.b+")" || e == "("+t.b+" "+t.op+" "+t.a+")"
 	}
-	o2.Check(len(conds) == 2 && has("((255 & p0) == (p0 >> 8))") && has("((15 & p0) == 10)"), "isGREASEUint16 tests %v, want (v>>8 == v&0xff) && (v&0xf == 0xa): exactly the 16 RFC 8701 values", conds)
+	alts := c.returnAlts(ig, 0)
+	o2.Check(len(alts) > 0, "isGREASEUint16 has no return")
+	for _, ra := range alts {
+		o2.AtI(ra.Ret)
+		h0, h1 := relHolds(ra.Lits, tests[0].a, "==", tests[0].b), relHolds(ra.Lits, tests[1].a, "==", tests[1].b)
+		n0, n1 := relHolds(ra.Lits, tests[0].a, "!=", tests[0].b), relHolds(ra.Lits, tests[1].a, "!=", tests[1].b)
+		switch {
+		case ra.E == "true":
+			o2.Check(h0 && h1, "isGREASEUint16 returns true under %v, want both (v>>8 == v&0xff) and (v&0xf == 0xa): exactly the 16 RFC 8701 values", ra.Lits)
+		case ra.E == "false":
+			o2.Check(n0 || n1, "isGREASEUint16 returns false under %v although neither test failed", ra.Lits)
+		case isTest(ra.E, tests[0]):
+			o2.Check(h1, "isGREASEUint16 returns (v>>8 == v&0xff) under %v, without v&0xf == 0xa", ra.Lits)
+		case isTest(ra.E, tests[1]):
+			o2.Check(h0, "isGREASEUint16 returns (v&0xf == 0xa) under %v, without v>>8 == v&0xff", ra.Lits)
+		default:
+			o2.Fail("isGREASEUint16 returns %s under %v, want (v>>8 == v&0xff) && (v&0xf == 0xa)", ra.E, ra.Lits)
+		}
+	}
 }
 
 func c02r7(r *R) {
